@@ -101,10 +101,14 @@ func c09R7(ic *IC, r *Report) {
 			}
 		}
 		sort.Slice(fs, func(i, j int) bool { return fs[i].Name() < fs[j].Name() })
-		for _, f := range fs {
+		if len(fs) > 0 {
 			hit = true
-			r.Fail("R09.7", top.Name()+"/resync:"+f.Name(), ic.pos(f.Pos()),
-				"the goroutine started by "+top.Name()+" reaches "+strings.Join(ssaPath(parentOf, f), " -> ")+", which sets the root frame's id to the interpreter's id current at that moment: a cancellation delivered earlier (while compiling) is erased and the program runs after "+top.Name()+" returned ctx.Err()")
+			var sites []string
+			for _, f := range fs {
+				sites = append(sites, strings.Join(ssaPath(parentOf, f), " -> "))
+			}
+			r.Fail("R09.7", top.Name()+"/resync", ic.pos(fs[0].Pos()),
+				"the goroutine started by "+top.Name()+" reaches a re-synchronisation of the root frame's id with the interpreter's id current at that moment ("+strings.Join(sites, "; ")+"): a cancellation delivered earlier (while compiling) is erased and the program runs after "+top.Name()+" returned ctx.Err()")
 		}
 		if !hit {
 			r.Pass("R09.7", top.Name()+"/resync", ic.pos(cl.Pos()), "no re-synchronisation of the run id after the goroutine started")
